@@ -65,19 +65,36 @@ def weight_shape(case):
     return (g["filters"], g["channels"], g["kernel"][0], g["kernel"][1])
 
 
-def delay_steps(case):
-    """Per weight element delay in whole steps (array shaped like the weight) or None."""
-    d = case.get("delay")
-    if d is None:
-        return None
+def _steps_array(case, raw, maxsteps):
     shp = weight_shape(case)
     n = int(np.prod(shp))
-    raw = d["steps"]
-    flat = [raw[j % len(raw)] % (d["max"] + 1) for j in range(n)]
+    flat = [raw[j % len(raw)] % (maxsteps + 1) for j in range(n)]
     arr = np.array(flat, dtype=np.int64).reshape(shp)
     if case["conn"] == "lateral":
         arr = arr * (1 - np.eye(shp[0], dtype=np.int64))  # documented: delays are masked
     return arr
+
+
+def change_step(case):
+    """Step from which the changed delays apply (``delayed`` mode only), or None."""
+    d = case.get("delay")
+    if d is None or not d.get("change") or case["T"] < 2:
+        return None
+    return 1 + d["change"]["at"] % (case["T"] - 1)
+
+
+def delay_steps(case):
+    """Per weight element delay in whole steps: None, an array shaped like the weight,
+    or (delays changed during the run) a list of such arrays, one per step."""
+    d = case.get("delay")
+    if d is None:
+        return None
+    base = _steps_array(case, d["steps"], d["max"])
+    at = change_step(case)
+    if at is None:
+        return base
+    new = _steps_array(case, d["change"]["steps"], d["max"])
+    return [base if t < at else new for t in range(case["T"])]
 
 
 def elements_of(case):
@@ -125,7 +142,9 @@ def build_layer(case):
     wflat = np.array([w0[j % len(w0)] for j in range(n)]).reshape(weight_shape(case))
     conn.weight = torch.tensor(wflat, dtype=wdt)
     if d is not None:
-        conn.delay = torch.tensor(delay_steps(case).astype(np.float64) * dt, dtype=wdt)
+        ds = delay_steps(case)
+        ds0 = ds[0] if isinstance(ds, list) else ds
+        conn.delay = torch.tensor(ds0.astype(np.float64) * dt, dtype=wdt)
     conn.updater = conn.defaultupdater()
     if case.get("neuron", "exact") == "lif":
         neuron = LIF(oshape, dt, rest_v=-60.0, reset_v=-65.0, thresh_v=-50.0, refrac_t=2 * dt,
@@ -193,7 +212,11 @@ def drive(case, layer, trainer, on_call=None):
     posts, obs = [], []
     conn = layer.connection
     fdt = conn.weight.dtype
+    chg = change_step(case)
     for t in range(T):
+        if chg is not None and t == chg:
+            with impl(f"set delay before step {t}"):
+                conn.delay = torch.tensor(delay_steps(case)[t].astype(np.float64) * case["dt"], dtype=fdt)
         pre = torch.tensor(case["pre"][t], dtype=torch.bool).reshape(B, *ishape)
         if scripted:
             post = torch.tensor(case["post"][t], dtype=torch.bool).reshape(B, *oshape)
@@ -314,6 +337,11 @@ def _run_pairs(case):
         cls.append("delays_hetero")
     if d is not None and d["max"] == 0:
         cls.append("delay_zero_max")
+    if change_step(case) is not None:
+        cls.append("delay_changed")
+    dk = "none" if d is None else ("delayed" if d.get("delayed") else "frozen")
+    cls.append(f"{case['conn']}/{dk}")
+    cls.append(f"{case['trainer']}/{dk}")
     if case["trainer"] in MODULATED:
         per = any(isinstance(s, list) for s in case["signal"])
         cls.append("signal=" + ("persample" if per else "scalar"))
@@ -348,7 +376,7 @@ def _bits(draw, n, p_num):
 @st.composite
 def hyper(draw, trainer):
     sp = draw(st.sampled_from([1, -1]))
-    sq = draw(st.sampled_from([1, -1]))
+    sq = draw(st.sampled_from([-1, 1]))
     if trainer in TRIPLET_TRAINERS:
         f1, f2 = draw(st.sampled_from(_TC)), draw(st.sampled_from(_TC))
         return {
@@ -423,9 +451,13 @@ def pairs_case(draw, tier="quick", trainers=TRAINERS):
         dkind = "frozen"  # MSTDPET has no 'delayed' mode
     if dkind in ("frozen", "delayed"):
         case["dt"] = draw(st.sampled_from([1.0, 0.5, 2.0, 0.25]))
-        case["delay"] = {"max": draw(st.sampled_from([0, 1, 2, 2, 3])),
+        case["delay"] = {"max": draw(st.sampled_from([2, 1, 3, 2, 0])),
                          "steps": draw(st.lists(st.integers(0, 3), min_size=1, max_size=6)),
                          "delayed": dkind == "delayed"}
+        if dkind == "delayed" and draw(st.integers(0, 2)) == 2:
+            # 'delayed' mode: the delays may change while training
+            case["delay"]["change"] = {"at": draw(st.integers(0, 12)),
+                                       "steps": draw(st.lists(st.integers(0, 3), min_size=1, max_size=6))}
     else:
         case["dt"] = draw(st.sampled_from([1.0, 0.5, 2.0, 1.3, 0.7]))
         case["delay"] = None
@@ -456,14 +488,14 @@ def pairs_case(draw, tier="quick", trainers=TRAINERS):
         else:
             case["signal"] = [draw(st.sampled_from(_SIG)) for _ in range(T)]
         case["scale"] = draw(st.sampled_from([1.0, 1.0, 0.5, 2.0, 0.1, -0.5]))
-    if draw(st.integers(0, 3)) == 0:
+    if draw(st.integers(0, 3)) == 3:
         case["called"] = [draw(st.sampled_from([True, True, True, False])) for _ in range(T)]
     else:
         case["called"] = [True] * T
     ukind = draw(st.sampled_from(["every", "end", "some"]))
     case["update"] = ([True] * T if ukind == "every" else [False] * T if ukind == "end"
                       else [draw(st.booleans()) for _ in range(T)])
-    case["f64"] = draw(st.integers(0, 7)) == 0
+    case["f64"] = draw(st.integers(0, 7)) == 7
     if trainer in TRIPLET_TRAINERS:
         case["inplace"] = draw(st.booleans())
     return case
